@@ -1,10 +1,35 @@
-"""C11 — element-tree history property: Coq theorems over the tree model (coq/Properties/C11.v), tied to the code by the
-history correspondence and checked directly on the implementation by the oracle (checks/treecommon.py)."""
+"""C11 — failed operations have no effect.
+Operation half (every constructor of the operation alphabet of coq/Tree/Script.v): Coq theorems
+coq/Properties/C11.v (C11_fail_no_effect, C11_fail_exact, Known11 classes with refuted witnesses), tied to the code by the
+history correspondence and checked directly on the implementation by the oracle `state-changed-after-error`
+(checks/treecommon.py, harness/src/tree_oracle.rs).
+Load half ("a load rejected for a syntax error, a merge conflict or overlapping paths"): the C11-load oracle of
+checks/c09.py (agent-c09's loader / merge streams), called through `extra_check`."""
 import treecommon
 
 
+def _load_half(ctx, avh, avm, tier, seed):
+    try:
+        import c09
+    except Exception as e:  # the load half lives in another work package
+        ctx.oblige("oracle:C11-load(import checks/c09.py)", False, repr(e)[:300])
+        return
+    if not hasattr(c09, "load_half"):
+        ctx.oblige("oracle:C11-load(checks/c09.py exports load_half)", False, "checks/c09.py has no load_half")
+        return
+    res = c09.load_half(ctx, tier, seed, avh=avh)
+    ctx.coverage["c11_load_half"] = {k: res.get(k) for k in ("ok", "checked", "rejected_by_error", "known", "merge_rejected")}
+
+
 def run(tier, seed):
-    return treecommon.run_tree_property("C11", tier, seed, "Properties/C11.v")
+    return treecommon.run_tree_property(
+        "C11", tier, seed, "Properties/C11.v",
+        rule_extra="C11: the oracle compares the whole canonical observation before and after every call that returns Err "
+                   "(kind=state-changed-after-error); the three Known11 classes of coq/Tree/Fail.v are matched by operation and "
+                   "error variant (known_findings.json, 'detail'); rejected loads are checked by the C11-load oracle of checks/c09.py.",
+        extra_check=_load_half,
+        assumptions=["tables_ok11 (a type named in a version is not a character type and its SHORT-NAME type is not named) "
+                     "is a hypothesis of C11_fail_no_effect about the specification tables"])
 
 
 def replay(path):
